@@ -51,6 +51,8 @@ def run(ck):
     ck.rule("C10.R14", "`the collector` whose visitor sees the fields is the emitting thread's current one: get_default's path choice and the writers of the per-thread default (as C02.R2/R3)", floor=6)
     ck.rule("C10.R15", "a registered callsite stays reachable for every later re-evaluation: the lock-free list's push links to the head it observed, on every retry (as C04.R3)", floor=5)
     ck.rule("C10.R16", "the value set a macro built reaches the collector's visitor through Dispatch unchanged: new_span / record / event forward 1:1 (as C09.R4)", floor=3)
+    ck.rule("C10.R20", "visitor adaptors are transparent to the type of a value: every Visit wrapper overrides each provided record_* method and forwards it to the "
+            "same method of the visitor it wraps (as C09.R1/R2)", floor=20)
     ck.rule("C10.R19", "a field key denotes one position of one callsite: keys are equal only with equal callsite *and* index, the set's iterator hands out "
             "positions 0..len in order with the set's own names and callsite, lookup by name yields the position whose name matched", floor=5)
     ck.rule("C10.R18", "a key names a field of *this* span or nothing: a Field key is accepted only when it is from the span's own callsite "
@@ -105,6 +107,10 @@ def run(ck):
     _C01b.r6(ck, F, rid="C10.R17")
     as_field_rule(ck, F)
     field_key_rule(ck, F)
+    # a visitor adaptor (Alt, Messages, VisitDelimited, ...) must hand every typed visit on to the visitor it wraps: a
+    # record_* it does not override falls back to its *own* record_debug and the wrapped visitor never sees the type
+    from rules import C09 as _C09v
+    _C09v.wrapper_rules(ck, F, rids={"R0": "C10.R20", "R1": "C10.R20", "R2": "C10.R20", "R3": "C10.R20"}, traits=["tracing_core::field::Visit"])
     from rules import C09 as _C09x
     _C09x.dispatch_forwarding(ck, F, rid="C10.R16", only={"new_span", "record", "enabled"})
     C02.r2(ck, F, rid="C10.R14")
